@@ -348,6 +348,8 @@ class Driver:
         self.shadow_w = 0          # log entries already applied to the shadow image
         self.crash_fd = None
         self.ncrash = 0
+        self.repseq = bool((prog.get("crash") or {}).get("repseq")) and "omit" not in prog.get("feat", [])
+        self.repseq_seen = set()
         self.thin = 0
         for op in prog["ops"]:
             getattr(self, "op_" + op["op"])(op)
@@ -1014,6 +1016,23 @@ class Driver:
                    "sigs": obs["sigs"], "annos": obs["annos"], "utcs": obs["utcs"], "ud": obs["ud"], "nsig": obs.get("nsig", 0),
                    "re": res.get("re", {"rc": 0, "wcount": 0, "modified": False, "same": True}),
                    "closed_ok": bool(res.get("closed_ok", True)), "closed_why": res.get("closed_why", ""), "size": len(img)})
+        if self.repseq and j == 0 and term == "ok" and res.get("rc", -1) == 0:
+            # tier-B conformance of the repair (JlsRepair.tla): the FSR chunk sequence before and after the repairing open
+            try:
+                with open(ipath, "rb") as f:
+                    post = fsr_chunk_seq(f.read())
+                pre = fsr_chunk_seq(img)
+            except (OSError, struct.error):
+                pre, post = {}, {}
+            for g, a in pre.items():
+                b = post.get(g)
+                if b is None or a["bits"] <= 8 or any(o <= 0 for c in a["seq"] + b["seq"] for o in c["o"]) or len(a["seq"]) > 400:
+                    continue        # blocks may be omitted (not modelled), or a link the sequence cannot express
+                key = (g, len(a["seq"]), a["att"])
+                if key in self.repseq_seen:
+                    continue        # the same image of this track (later writes went to other tracks)
+                self.repseq_seen.add(key)
+                self.emit({"e": "RepSeq", "sig": g, "k": w, "P": [_clip(v) for v in a["P"]], "att": bool(a["att"]), "pre": a["seq"], "post": b["seq"]})
         try:
             os.remove(ipath)
         except OSError:
@@ -1288,6 +1307,46 @@ def _clip(v):
     drivers keep every quantity the specifications compute with far below that."""
     v = int(v)
     return max(-INT_MAX, min(INT_MAX, v))
+
+def fsr_chunk_seq(img):
+    """The FSR track of every FSR signal as a chunk sequence in file order (for the tier-B repair model JlsRepair.tla):
+    sig -> (P, [chunk]), chunk = {t: D/I/S, l: level, ts, n, o: index offsets as ordinals in the sequence (0 = none,
+    -1 = not a chunk of the sequence), off, next}; heads: sig -> 16 head offsets; plus whether the last chunk is attached
+    to its list (a predecessor's item_next or the head table leads to it; summaries are read behind their index)."""
+    import lifter
+    fh, chunks, why = lifter.parse_image(img)
+    defs = {}
+    seqs = {}
+    heads = {}
+    for ch in chunks:
+        kind, tt, ck = lifter.tag_info(ch["tag"])
+        if kind == "signal" and ch["pcrc_ok"] and len(ch["payload"]) >= 36:
+            src, st, _r, dt, rate, spd, sdf, eps, sumdf, adf, udf = struct.unpack("<HBBIIIIIIII", ch["payload"][:36])
+            if st == 0:
+                defs[ch["meta"] & 0xfff] = {"bits": (dt >> 8) & 0xff, "P": [spd, sdf, eps, sumdf]}
+        elif kind == "track" and tt == 0 and ch["pcrc_ok"]:
+            g = ch["meta"] & 0xfff
+            if ck == 1 and len(ch["payload"]) == 128:
+                heads[g] = list(struct.unpack("<16Q", ch["payload"]))
+            elif ck in (2, 3, 4) and len(ch["payload"]) >= 16:
+                ts, cnt, esb, rsv = struct.unpack("<qIHH", ch["payload"][:16])
+                offs = list(struct.unpack("<%dQ" % cnt, ch["payload"][16:16 + 8 * cnt])) if ck == 3 and len(ch["payload"]) >= 16 + 8 * cnt else []
+                seqs.setdefault(g, []).append({"t": "DIS"[ck - 2], "l": ch["meta"] >> 12, "ts": ts, "n": cnt, "offs": offs, "off": ch["off"], "next": ch["next"]})
+    out = {}
+    for g, seq in seqs.items():
+        if g not in defs or not any(c["t"] == "D" for c in seq):
+            continue
+        first = next(c["ts"] for c in seq if c["t"] == "D")
+        ordof = {c["off"]: i + 1 for i, c in enumerate(seq)}
+        last = seq[-1]
+        att = True
+        if last["t"] != "S":
+            att = (heads.get(g, [0] * 16)[last["l"]] == last["off"]
+                   or any(c["next"] == last["off"] and c["t"] == last["t"] and c["l"] == last["l"] for c in seq[:-1]))
+        out[g] = {"bits": defs[g]["bits"], "P": defs[g]["P"], "att": att,
+                  "seq": [{"t": c["t"], "l": c["l"], "ts": _clip(c["ts"] - first), "n": c["n"],
+                           "o": [0 if o == 0 else ordof.get(o, -1) for o in c["offs"]]} for c in seq]}
+    return out
 
 
 def stat_projection(mean, std, mn, mx, incr):
